@@ -153,7 +153,7 @@ Near(nm) ==
    \cup {SubSeq(nm, 1, i) \o <<x>> \o SubSeq(nm, i + 1, Len(nm)) : i \in 0..Len(nm), x \in {"x", "."}}
    \cup {[nm EXCEPT ![i] = "x"] : i \in 1..Len(nm)}
 
-RegPool == {<<"a",".","b">>, <<"a",".","b",".","c">>, <<"a">>, <<"a",".","b",".","c",".","d">>, <<"a",".","U1">>}
+RegPool == {<<"a",".","b">>, <<"a",".","b",".","c">>, <<"a">>, <<"a",".","b",".","c",".","d">>, <<"a",".","U1">>, <<"a",".","B">>}   \* a.B: names are case-sensitive
 MethodStrings ==
   Strs({".", "a", "b", "c"}, IF Rich THEN 5 ELSE 4)
    \cup UNION {Near(r) : r \in RegPool \cup {OVS}}
@@ -166,7 +166,7 @@ F4 == {Sc(<<Fr("call", m, NoFl, "known", <<St("final", <<>>, "")>>, "nil", 1), R
       \cup {Sc(<<Fr("call", m, fl, "known", <<St("final", <<>>, "")>>, "nil", 1), RInfo>>, <<2, 2>>, "halfclose") :
                m \in Strs({".", "a", "b"}, 3) \cup {OVS \o <<".", "x">>, OVS \o <<".">> \o GETINFO, <<"a", ".", "b", ".", "M">>}, fl \in {UpFl, MoreFl}}
 TRegA == {<<"a",".","b">>, <<"a",".","b",".","c">>}
-TRegB == {<<"a">>, <<"a",".","b",".","c",".","d">>, <<"a",".","U1">>}
+TRegB == {<<"a">>, <<"a",".","b",".","c",".","d">>, <<"a",".","U1">>, <<"a",".","B">>}
 TRegC == {}
 
 (* F5 (C12): every error-name string a handler may try to send *)
